@@ -850,7 +850,7 @@ func (in *Interp) boundMethod(fr *frame, r *RValue, sel *types.Selection) *RValu
 		if ifc.t == nil {
 			rpanic(fr, "reflect: Method on nil interface value")
 		}
-		m := in.prog.LookupMethod(ifc.t, sel.Obj().Pkg(), sel.Obj().Name())
+		m := in.lookupMethod(ifc.t, sel.Obj().Pkg(), sel.Obj().Name())
 		in.nextFuncID++
 		f := &FuncV{typ: sig, id: in.nextFuncID, name: m.String() + "-fm", native: func(in *Interp, fr *frame, args []Value) Value {
 			return in.callFn(fr, m, append([]Value{ifc.v}, args...), nil)
